@@ -58,7 +58,11 @@ CheckTpl(r) ==
   ELSE IF r.out.loc # "" /\ ~(\E i \in 1..Len(r.selected) : r.selected[i] = r.out.loc) THEN PrintT(<<"REJECT", r.tid, "prop", "reported-locale-not-selected", r.single>>)
   ELSE IF r.out # r.single THEN PrintT(<<"REJECT", r.tid, "prop", "previous-locales-of-another-parser-used", r.single>>)
   ELSE TRUE
-Check(r) == IF r.kind = "conv" THEN CheckConv(r) ELSE IF r.kind = "tpl" THEN CheckTpl(r) ELSE CheckMain(r)
+\* kind "convrel": the selected locale's date order reaches every parser that reads one (absolute, no-spaces): the outcome
+\* equals the outcome of the same call with that order stated explicitly (r.stated)
+CheckConvRel(r) == IF r.out = r.stated THEN TRUE
+                   ELSE PrintT(<<"REJECT", r.tid, "prop", "locale-date-order-not-applied-by-every-parser", r.stated>>)
+Check(r) == IF r.kind = "convrel" THEN CheckConvRel(r) ELSE IF r.kind = "conv" THEN CheckConv(r) ELSE IF r.kind = "tpl" THEN CheckTpl(r) ELSE CheckMain(r)
 TNext == l < Len(Tr) /\ l' = l + 1 /\ Check(Tr[l + 1])
 TSpec == TInit /\ [][TNext]_l
 Consumed == PrintT(<<"CONSUMED", TLCGet("stats").diameter - 1, Len(Tr)>>)
